@@ -38,6 +38,8 @@ func main() {
 			"ROUND 4: (wc/) stores built by the config constructor with minWritesForSuccess omitted / 0 / 1..n x readBackends omitted / [] / spelled out / every shorter subset / only read-only replicas / longer (write list + read-only replicas), all 2^n ok/error assignments + seeded 5-mode ones, judged against the documented quorum (default = all write replicas); "+
 			"(we/) every non-empty failing subset with all its replicas returning the same sentinel error (context.Canceled / DeadlineExceeded bare, wrapped, in *url.Error; io.EOF; io.ErrUnexpectedEOF; os.ErrNotExist; *PathError; ErrCorruptBlob; …) as plain error and as lost ack, or the same wrong answer (zero SizedRef, size 0, size-1), plus seeded mixtures; "+
 			"(wx/) the caller's context ends (cancel / deadline; mid-call or before the call) while ctx-aware slow replicas are uploading (they abort with the context's error) next to ok / failing / gated replicas. "+
+			"ROUND 6: (wt/) receives onto replicas that ALREADY hold something under the blob's ref: every assignment (n<=3; n=4 seeded, thorough all) of {fresh, good copy, wrong-sized copy that a write replaces, wrong-sized copy that the replica keeps (answering with its size), wrong-sized copy + failing writes, failing writes, down} to the write replicas, harness-made overwrite-on-write replicas that do not re-hash (as localdisk), wrong-sized = truncated / empty / trailing garbage; verdict: an ack needs m replicas holding the blob's exact bytes at the ack (global sequence numbers), and m replicas that hold or accept it make the receive succeed; "+
+			"every replica's fetched stream stays bound to the context its Fetch was called with (reads fail with the context's error once it is over, as an HTTP body does) and every judged fetch reads the stream to the end after Fetch returned. "+
 			"distinct = (n,m,read set,mode assignment,schedule) resp. (n,read set,placement); non-trivial = at least one faulty/slow replica or m<n, resp. at least one blob on >=2 or 0 read replicas",
 		run)
 }
@@ -170,6 +172,8 @@ func run(r *ev.Run) {
 	r.Assume("a read replica that reports a wrong size for a blob in its stat/enumerate answer is inside the quantifier (failing replicas per operation: error, wrong size, slow); the replica store must still report the blob exactly once; the size it reports must be one that some holding read replica reported, which one is not judged")
 	r.Assume("config constructor: minWritesForSuccess omitted means 'all' = every WRITE replica ('backends'), as the package documentation says (\"Writes wait for minWritesForSuccess (default: all)\"); an explicit 0 is the unset value of the number and is judged as the same default; readBackends (any length, any overlap with backends) never changes the quorum of a receive")
 	r.Assume("a replica that returns an error has not acknowledged the blob, whatever the error is (context.Canceled, io.EOF, os.ErrNotExist, … bare or wrapped); when the caller's own context ended before the receive was seen to have returned, an error answer is accepted without further judgement, while a nil error still needs the quorum")
+	r.Assume("wt/ family: a replica that holds a wrong-sized copy under the blob's ref has not 'stored the blob with the correct size', whatever it or anybody reports; a replica that held the exact bytes before the receive has; the replicas of that family are harness-made stores that, like localdisk and most perkeep backends, do not re-hash what they are given and report the size of what they hold")
+	r.Assume("a replica may hand out a stream that stays bound to the context passed to its Fetch (blobserver/remote and the cloud stores do); the callers of this check never end the context they fetch with")
 	r.Assume("bounded waits (a few ms) are used only to choose the next harness action (release a gate before or after the call returned); every verdict is computed from the recorded global event sequence")
 
 	var jobs []job
@@ -182,8 +186,14 @@ func run(r *ev.Run) {
 	jobs = append(jobs, cfgJobs(r)...)
 	jobs = append(jobs, errKindJobs(r)...)
 	jobs = append(jobs, cancelJobs(r)...)
+	jobs = append(jobs, tornJobs(r)...)
 	runJobs(24, jobs)
 	runRetryCases(r)
+	r.Count("fetch_streams_bound_to_the_fetch_context", int(ctxBoundStreams.Load()))
+	r.Count("reads_from_such_streams_after_fetch_returned", int(ctxBoundReads.Load()))
+	if ctxBoundStreams.Load() > 0 && ctxBoundReads.Load() > 0 {
+		r.Note("fetch_streams", "bound-to-the-fetch-context/read-after-fetch-returned")
+	}
 
 	if os.Getenv("VERIF_ONLY") != "" {
 		return // replay of one case: coverage requirements do not apply
@@ -228,6 +238,15 @@ func run(r *ev.Run) {
 	{
 		r.Require("placements", "on-none", "on-one-read-replica", "on-several-read-replicas", "on-all-read-replicas", "only-on-non-read-replica", "on-read-and-non-read-replica")
 		r.Require("fetch_faults", "no-fault", "earlier-replica-fails-later-holds", "all-holders-fail", "some-holder-fails-other-serves")
+	}
+	{
+		// round 6: receives onto replicas that already hold a (wrong-sized / good) copy (torn.go); fetched
+		// streams that stay bound to the context of the replica's Fetch (misread.go, liar.Fetch)
+		r.Require("preexisting_copy_states", tornStateNames[:]...)
+		r.Require("preexisting_wrong_sized_copy", "truncated", "empty", "extended")
+		r.Require("preexisting_copy_class", "quorum-only-if-wrong-sized-copies-counted", "quorum-reachable-beside-wrong-sized-copies", "quorum-needs-the-good-copies-already-held")
+		r.Require("preexisting_copy_outcomes", "ack", "error", "ack/with-a-replaceable-wrong-sized-copy")
+		r.Require("fetch_streams", "bound-to-the-fetch-context/read-after-fetch-returned")
 	}
 	{
 		r.Require("history", "receive", "fetch", "stat", "enumerate", "remove", "re-receive", "audit")
